@@ -22,7 +22,6 @@ import asyncio
 def traced_run(c, k):
     """Run QuickPartitioner(k) on `c` in place; return the list of moves."""
     import bqskit.passes.partitioning.quick as quick
-    from bqskit.compiler.passdata import PassData
     from bqskit.ir.circuit import Circuit
 
     tag_of = {}
@@ -74,7 +73,8 @@ def traced_run(c, k):
     quick.Circuit = Traced
     c.get_slice = get_slice          # instance attribute shadows the method
     try:
-        asyncio.run(quick.QuickPartitioner(k).run(c, PassData(c)))
+        from harness.c08 import make_data
+        asyncio.run(quick.QuickPartitioner(k).run(c, make_data(c)))
     finally:
         quick.Circuit = saved
         try:
